@@ -919,6 +919,8 @@ struct Gen {
   HistSim& sim;
   GenOpts vo;
   std::string mode;
+  int csetStage = 0;    // > 0: on the way to a JsonArray::set / JsonObject::set between two distinct handles
+  char csetView = 'a';
 
   Sel pickSel(const Val& node, bool preferExisting) {
     if (node.k == K::Obj || (node.k == K::Null && r.chance(1, 2)) || (node.k != K::Arr && r.chance(1, 3))) {
@@ -963,6 +965,39 @@ struct Gen {
       sel = 905 + unsigned(r.below(95));  // threads mostly meet in serializers and deserializers
     Op op;
     auto via = [&](int n) { op.set("via", int64_t(r.below(uint64_t(n)))); };
+    if (csetStage > 1) {
+      csetStage--;
+      op = mkop("tos");
+      size_t h = pickRef('v');
+      op.setu("h", h).set("s", pickSel(*sim.nodeOf(*refs[h]), false).text()).set("kind", std::string(1, csetView));
+      return op;
+    }
+    if (csetStage == 1) {
+      csetStage = 0;
+      std::vector<std::pair<size_t, size_t>> pairs;
+      for (size_t a = 0; a < refs.size() && pairs.size() < 64; a++)
+        for (size_t b = 0; b < refs.size(); b++)
+          if (a != b && refs[a]->view == csetView && refs[b]->view == csetView &&
+              !(refs[a]->doc == refs[b]->doc && refs[a]->node == refs[b]->node))
+            pairs.push_back({a, b});
+      if (!pairs.empty()) {
+        auto pr = pairs[r.below(pairs.size())];
+        if (r.chance(1, 2)) {
+          // first put something into the destination and the source, so that "replaces" and "merges" differ
+          op = mkop(csetView == 'a' ? "add" : "sets");
+          size_t which = r.chance(1, 2) ? pr.first : pr.second;
+          op.setu("h", which).set("v", toText(genScalar(r, vo)));
+          if (csetView == 'o')
+            op.set("s", Sel::k(genString(r, vo, true)).text());
+          via(2);
+          csetStage = 1;
+          return op;
+        }
+        op = mkop("cset");
+        op.setu("h", pr.first).setu("src", pr.second);
+        return op;
+      }
+    }
     if (r.chance(1, 25)) {
       // the same characters again, from the other kind of source (linked <-> copied)
       std::vector<std::pair<size_t, const Val*>> strs;
@@ -983,6 +1018,25 @@ struct Gen {
         Val nv = Val::str(pick.second->s, !pick.second->linked);
         op = mkop("sets");
         op.setu("h", pick.first).set("s", Sel::k(key).text()).set("v", toText(nv));
+        via(3);
+        return op;
+      }
+    }
+    if (r.chance(1, 40)) {
+      // the bytes of a raw value the documents hold, again as a copied string - or the characters of a string, again
+      // as a raw value: both live in the same pool of copied strings, where only the bytes are compared
+      std::vector<std::pair<std::string, bool>> held;  // bytes, is raw
+      for (size_t i = 0; i < refs.size(); i++)
+        visitc(*sim.nodeOf(*refs[i]), [&](const Val& x) {
+          if ((x.k == K::Raw || (x.k == K::Str && !x.linked)) && !x.s.empty() && held.size() < 64)
+            held.push_back({x.s, x.k == K::Raw});
+        });
+      if (!held.empty()) {
+        auto pick = held[r.below(held.size())];
+        Val nv = pick.second ? Val::str(pick.first, false) : Val::raw(pick.first);
+        size_t h = pickRef('v');
+        op = mkop("sets");
+        op.setu("h", h).set("s", pickSel(*sim.nodeOf(*refs[h]), false).text()).set("v", toText(nv));
         via(3);
         return op;
       }
@@ -1101,8 +1155,26 @@ struct Gen {
       via(3);
     } else if (sel < 745) {
       op = mkop("cset");
-      char view = r.chance(1, 2) ? 'a' : 'o';
-      op.setu("h", pickRef(view)).setu("src", pickRef(view));
+      // two handles of the same type designating different values, if the table has such a pair
+      std::vector<std::pair<size_t, size_t>> pairs;
+      for (size_t a = 0; a < refs.size() && pairs.size() < 64; a++)
+        for (size_t b = 0; b < refs.size(); b++)
+          if (a != b && (refs[a]->view == 'a' || refs[a]->view == 'o') && refs[a]->view == refs[b]->view &&
+              !(refs[a]->doc == refs[b]->doc && refs[a]->node == refs[b]->node))
+            pairs.push_back({a, b});
+      if (!pairs.empty() && r.chance(9, 10)) {
+        auto pr = pairs[r.below(pairs.size())];
+        op.setu("h", pr.first).setu("src", pr.second);
+      } else if (r.chance(1, 4)) {
+        char view = r.chance(1, 2) ? 'a' : 'o';
+        op.setu("h", pickRef(view)).setu("src", pickRef(view));
+      } else {
+        // no such pair yet: make two typed handles (new nested arrays / objects reached through a proxy), give one
+        // some content, then come back (see the top of next())
+        csetView = r.chance(1, 2) ? 'a' : 'o';
+        csetStage = 3;
+        return next();
+      }
     } else if (sel < 830) {
       op = mkop("take");
       size_t h = pickRef();
